@@ -505,3 +505,147 @@ def mirror_relation(s, a, b, exact=True):
     if len(sa) != len(sb) or not all(eq(u, -v) for u, v in zip(sa, sb)) or na != nb:
         return 'strain_values not mirrored'
     return None
+
+
+# --------------------------------------------------------------------------- near-tie float inputs (C04, added after seeded change C04-2)
+# The detector compares loads with an absolute tolerance of 1e-12 (five sites in fkm_nonlinear.py).  Inputs on an integer grid never
+# come near those tolerances.  The functions below turn an integer LEVEL sequence s into a FLOAT load sequence f with
+#     f_i = sign(s_i) * (fl(|s_i| * c) moved by k_i ulps),        |f_i - c * s_i| <= d   (d is measured exactly, in rationals),
+# where different occurrences of the same level get different k_i: loads that are equal only up to float rounding (0.3 vs 0.1 + 0.2).
+# One k per run of equal consecutive levels (cyclically: the last run continues in the first one when s[-1] == s[0]) and level 0 stays
+# exactly 0, so that every step of 0, f, f has the sign of the corresponding level step: f has the same turning points, the same junction
+# class and -- up to the perturbation -- the same periodic reversals as s.  With 4 d + (float rounding of the code's own differences)
+# < 1e-12 << c every tolerant comparison of the code decides like the exact comparison of the levels
+# (coq/theories/HCM/Tol.v: tolerant_gt_is_level_gt / tolerant_lt_is_level_lt), so the detector has to record for f the hystereses it
+# records for s, with loads within d of c * level.
+TOL = 1e-12
+NT_SCALES = [0.1, 0.1, 0.7, 0.3, 1.0 / 3.0, 1e-3, 0.01, 1.1, 2.5, 7.3, 1.0]
+NT_MODES = ['random', 'growing', 'shrinking', 'late-extreme']
+
+
+class ScaledLaw(IntLaw):
+    """IntLaw on the levels of loads given in units of c (the law values stay integers, nothing else depends on rounding)."""
+
+    def __init__(self, c):
+        self.c = float(c)
+
+    def _ap(self, f, *args):
+        arrs = [np.atleast_1d(np.asarray(a, dtype=float)) for a in args]
+        return pd.Series([float(f(*[int(round(float(v) / self.c)) for v in vs])) for vs in zip(*arrs)])
+
+
+def _ulps(x, k):
+    for _ in range(abs(k)):
+        x = float(np.nextafter(x, np.inf if k > 0 else 0.0))
+    return x
+
+
+def nt_runs(s):
+    """Run id of every sample: consecutive equal levels form a run; the last run joins the first one when s[-1] == s[0]."""
+    ids, r = [], 0
+    for i, x in enumerate(s):
+        if i and x != s[i - 1]:
+            r += 1
+        ids.append(r)
+    if len(s) > 1 and s[-1] == s[0] and ids[-1] != 0:
+        last = ids[-1]
+        ids = [0 if j == last else j for j in ids]
+    return ids
+
+
+def nt_valid(s, f):
+    """f is an admissible perturbation of the levels s: equal neighbours (also across the junction of two passes) stay equal,
+    unequal neighbours keep their order, zeros stay zero."""
+    n = len(s)
+    if len(f) != n:
+        return False
+    for i in range(n):
+        a, b, fa, fb = s[i - 1], s[i], f[i - 1], f[i]       # i = 0: the junction last -> first
+        if (a == b and fa != fb) or (a < b and not fa < fb) or (a > b and not fa > fb):
+            return False
+        if (b == 0) != (fb == 0.0) or (b > 0) != (fb > 0):
+            return False
+    return True
+
+
+def nt_budget(s, f, c):
+    """Exact check that the perturbation stays far enough below the code's tolerance (see the comment above); returns d or None."""
+    from fractions import Fraction
+    d = max(abs(Fraction(x) - Fraction(c) * v) for x, v in zip(f, s))
+    m = max(abs(x) for x in f)
+    r = Fraction(m) / 2 ** 51             # generous bound for the float rounding of one difference / one `x +- 1e-12` of such loads
+    if 4 * d + 4 * r > Fraction(9, 10 ** 13) or Fraction(c) < Fraction(1, 10 ** 9):
+        return None
+    return float(d)
+
+
+def perturb(rng, s, c, mode):
+    """Float loads for the level sequence s (see above); None when the error budget cannot be met for this scale."""
+    ids = nt_runs(s)
+    for kmax in (2, 1):
+        ks, seen = {}, {}
+        for i, x in enumerate(s):
+            rid = ids[i]
+            if rid in ks:
+                continue
+            j = seen.get(abs(x), 0)              # how many runs of this |level| came before
+            seen[abs(x)] = j + 1
+            if mode == 'growing':
+                k = min(j, 2 * kmax) - kmax
+            elif mode == 'shrinking':
+                k = kmax - min(j, 2 * kmax)
+            elif mode == 'late-extreme':         # only the largest |level| is perturbed, later occurrences slightly larger
+                k = (min(j, 2 * kmax) - kmax) if abs(x) == max(abs(y) for y in s) else 0
+            else:
+                k = rng.randint(-kmax, kmax)
+            ks[rid] = k
+        f = []
+        for i, x in enumerate(s):
+            a = _ulps(abs(x) * float(c), ks[ids[i]]) if x else 0.0
+            f.append(a if x >= 0 else -a)
+        if nt_valid(s, f) and nt_budget(s, f, c) is not None:
+            return f
+    return None
+
+
+def snap_rows(rows, c):
+    """Rows with loads_min / loads_max replaced by their levels (nearest multiple of c); ValueError when a recorded load is not
+    within the tolerance of a multiple of c (then it is not a load of the sequence)."""
+    out = []
+    for r in rows:
+        q = dict(r)
+        for k in ('loads_min', 'loads_max'):
+            lv = int(round(float(r[k]) / c))
+            if abs(float(r[k]) - lv * c) > TOL:
+                raise ValueError('recorded %s = %r is not a load of the sequence (scale %r)' % (k, r[k], c))
+            q[k] = lv
+        out.append(q)
+    return out
+
+
+def exact_steady_levels(f, c):
+    """steady_cycles of the float sequence itself, evaluated in exact rational arithmetic, snapped to levels."""
+    from fractions import Fraction
+    sc = steady_cycles([Fraction(x) for x in f])
+    out = []
+    for t in sc:
+        if len(t) != 2:
+            return None
+        out.append(tuple(int(round(float(v) / c)) for v in t))
+    return sorted(out)
+
+
+def impl_run_scaled(f, c, passes=2):
+    return impl_run(f, ScaledLaw(c), passes)
+
+
+def _w_scaled(a):
+    return _safe(impl_run_scaled, a)
+
+
+def c04_relation_nt(s, f, c, rows):
+    """C04 on what the implementation recorded for the float loads f (levels s, scale c)."""
+    try:
+        return c04_relation(s, snap_rows(rows, c))
+    except ValueError as e:
+        return str(e)
